@@ -6,6 +6,7 @@ import (
 	"encoding/json"
 	"errors"
 	"fmt"
+	"math"
 	"os"
 	"os/exec"
 	"path"
@@ -586,6 +587,10 @@ func (b *Builder) PatchConfig() ([]byte, error) {
 			}
 			return nil, err
 		}
+		// the Demon reads the sleep time as a 32-bit value
+		if ConfigSleep < 0 || ConfigSleep > math.MaxInt32 {
+			return nil, errors.New("Sleep has to be between 0 and 2147483647")
+		}
 	}
 
 	if val, ok := b.config.Config["Jitter"].(string); ok {
@@ -878,6 +883,11 @@ func (b *Builder) PatchConfig() ([]byte, error) {
 			}
 		}
 
+		// a payload with a port it cannot connect to would never call home
+		if Port < 1 || Port > 65535 {
+			return nil, errors.New("The listener port has to be between 1 and 65535")
+		}
+
 		DemonConfig.AddInt64(Config.Config.KillDate)
 
 		WorkingHours, err := common.ParseWorkingHours(Config.Config.WorkingHours)
@@ -932,6 +942,10 @@ func (b *Builder) PatchConfig() ([]byte, error) {
 					return nil, err
 				}
 
+				if Port < 1 || Port > 65535 {
+					return nil, errors.New("The port of host " + Host + " has to be between 1 and 65535")
+				}
+
 				/* Adding Host:Port */
 				DemonConfig.AddWString(common.GetInterfaceIpv4Addr(Host))
 				DemonConfig.AddInt(Port)
@@ -962,12 +976,14 @@ func (b *Builder) PatchConfig() ([]byte, error) {
 				DemonConfig.AddWString("Content-type: */*")
 			}
 		} else {
+			// the payload's header list; the listener's own configuration stays as it is
+			var Headers = append([]string{}, Config.Config.Headers...)
 			if len(Config.Config.HostHeader) > 0 {
-				Config.Config.Headers = append(Config.Config.Headers, "Host: "+Config.Config.HostHeader)
+				Headers = append(Headers, "Host: "+Config.Config.HostHeader)
 			}
 
-			DemonConfig.AddInt(len(Config.Config.Headers))
-			for _, headers := range Config.Config.Headers {
+			DemonConfig.AddInt(len(Headers))
+			for _, headers := range Headers {
 				logger.Debug(headers)
 				DemonConfig.AddWString(headers)
 			}
